@@ -63,13 +63,14 @@ type Exec struct {
 	finOnce  bool
 
 	// results
-	Panics     []string
-	Deadlock   bool
-	HorizonHit bool
-	Diverged   string
-	Blocked    []string // descriptions of threads blocked at deadlock
-	Trace      []string
-	TraceOn    bool
+	Panics      []string // one deterministic line per panic
+	PanicStacks []string
+	Deadlock    bool
+	HorizonHit  bool
+	Diverged    string
+	Blocked     []string // descriptions of threads blocked at deadlock
+	Trace       []string
+	TraceOn     bool
 	// per-execution scratch for harnesses / shims
 	Locals map[any]any
 	// FreezeAfter: when >0, the clock pseudo thread is not a candidate for timers
@@ -143,7 +144,8 @@ func (e *Exec) threadMain(t *thread, body func()) {
 				return
 			}
 			if !e.aborting {
-				e.Panics = append(e.Panics, fmt.Sprintf("thread %d(%s): %v\n%s", t.id, t.name, r, trimStack(debug.Stack())))
+				e.Panics = append(e.Panics, fmt.Sprintf("thread %d(%s): %v", t.id, t.name, r))
+				e.PanicStacks = append(e.PanicStacks, trimStack(debug.Stack()))
 				e.aborting = true
 				e.finish()
 			}
